@@ -41,7 +41,7 @@ package triple
 
 // The pooled scratch buffer of Triple.UUID always has 48 bytes.
 //@ pool bufPool: x != nil && len(deref(x)) == 48
-//@ props C06
+//@ props C06 C01 C02
 //@ func init$1
 //@   ensures[pool-element] result != nil && typeis(result, "*[]byte") && len(deref(unbox(result, "*[]byte"))) == 48
 
